@@ -257,8 +257,9 @@ pub fn grid(tier: Tier) -> Vec<Sys> {
             for m in 1..=2 {
                 v.extend(systems(2, m, &[0.0, 1.0, -1.0, 2.0, -2.0], &[-1.0, 0.0, 1.0, 2.0]));
             }
-            for (i, s) in systems(2, 3, &[0.0, 1.0, -1.0, 2.0], &[-1.0, 0.0, 1.0]).into_iter().enumerate() {
-                if i % 4 == 0 {
+            v.extend(systems(2, 3, &[0.0, 1.0, -1.0, 2.0], &[-1.0, 0.0, 1.0]));
+            for (i, s) in systems(3, 2, &[0.0, 1.0, -1.0], &[-1.0, 0.0, 1.0]).into_iter().enumerate() {
+                if i % 2 == 0 {
                     v.push(s);
                 }
             }
@@ -321,7 +322,7 @@ pub fn run(tier: Tier) -> Report {
     rep.set("distinct_nontrivial", nt);
     rep.set("rule", "every ordered list of m rows over the coefficient and bias alphabets (contains duplicated, positively and negatively scaled, parallel, zero, equality-pair rows, empty and unbounded sets by construction); one evaluation per clean-up function and per index set of remove_rows; non-trivial = at least two rows; distinct because the enumeration never repeats a row list");
     rep.set("bound", match tier {
-        Tier::Quick => "n=1: m<=3 over {0,+-1,+-2} x {-2..2}; n=2: m<=2 over {0,+-1,+-2} x {-1,0,1,2}, every 4th system with m=3 over {0,+-1,2} x {-1,0,1}",
+        Tier::Quick => "n=1: m<=3 over {0,+-1,+-2} x {-2..2}; n=2: m<=2 over {0,+-1,+-2} x {-1,0,1,2}, m=3 over {0,+-1,2} x {-1,0,1}; n=3: every 2nd system with m=2",
         Tier::Thorough => "n=1: m<=4; n=2: m<=3, every 3rd with m=4; n=3: every 5th with m=3",
     });
     rep.assume("set equality decided by exact mutual inclusion (one exact LP per row); 'implied by a margin' = exact maximum of the row over the others <= bias - 1e-6");
